@@ -1,9 +1,9 @@
 SPECIFICATION Spec
 CONSTANTS
   RotB = 2
-  NGen = 4
-  NOcta = 6
-  QCount = 1
+  NGen = 0
+  NOcta = 0
+  QCount = 24
   Multi = TRUE
 INVARIANT LemmasHold
 INVARIANT FrameLemma
